@@ -235,8 +235,9 @@ func paramWrittenToTar(c *Ctx, fn *ssa.Function, p *ssa.Parameter, depth int) bo
 }
 
 func checkC03(c *Ctx, r *Report) {
-	r.Rules = []string{"O1 every digest is fed by the stream that is shipped and read only after it is complete", "O2 apk digests sit below the compressor; datahash/signed digest are the segment writers' results", "F7 md5sums names the header that was written", "F8 mtree verbs bound to the matching fields; .PKGINFO first; one size value", "F9 size accumulators are fed from the copied entries"}
+	r.Rules = []string{"O1 every digest is fed by the stream that is shipped and read only after it is complete", "O2 apk digests sit below the compressor; datahash/signed digest are the segment writers' results", "F7 md5sums names the header that was written", "F8 mtree verbs bound to the matching fields; .PKGINFO first; one size value", "F9 size accumulators are fed from the copied entries", "F8-line every shipped entry type gets an mtree line", "shipped-F12-apk the apk segments shipped are the buffers that were hashed (imported from C10)"}
 	r.Explanation = "Stream-coupling and ordering rules over go/ssa for every hash nfpm creates on a packaging path (internal/sign excluded). (O1) each hash must be fed in one of three coupled ways — a TeeReader on the very reader that io.Copy drains into the archive writer, an io.MultiWriter that also contains the archive/output writer and is the destination of one copy or the sink of the compressor, or Write of the same SSA value that is written to the archive — and never by a separate read of the data; every Sum is dominated by the completion of that feeding (the copy, or the Close of the compressor the hash sits under). (O2) in apk the hash is an element of the MultiWriter that is the gzip writer's sink, so it covers the bytes as shipped. (F7) the name printed into md5sums is the Name field of the header handed to WriteHeader. (F8) in the mtree line formats each key=%verb is bound to the like-named field, .PKGINFO's entry is put first, and the .PKGINFO size in the tar header and in the mtree is one value; digests go to the fields of their own algorithm. (F9) installed-size accumulators are fed from the entries' sizes, divided by 1024 for deb/ipk. Digest and size values themselves, and rpmpack's internal digests, are not computed."
+	r.Explanation += " (F8-line) the mtree line writer, evaluated for every entry type the archlinux payload writer ships, must reach a write. (shipped-F12-apk, imported from C10) the buffers the apk segments were hashed from are the ones concatenated into the package, all of them, on every path."
 	r.Assumptions = []string{
 		"hash.Hash, io.TeeReader, io.MultiWriter and io.Copy behave as documented",
 		"rpm header/payload digests and sizes are computed inside rpmpack over the payload it writes (dependency)",
@@ -608,6 +609,7 @@ func checkMtree(c *Ctx, r *Report, pa *provAnalysis) {
 	}
 	r.Floor("F8", n, 2)
 	checkMtreeLines(c, r)
+	checkMtreeSizeAgrees(c, r, pk)
 	// digests go to the field of their own algorithm; sizes come from one value
 	for _, fn := range sortedFuncs(c, c.Reach(pk.Package)) {
 		forEachInstr(fn, func(in ssa.Instruction) {
@@ -983,4 +985,44 @@ func digestAlgoOf(c *Ctx, v ssa.Value, depth int) string {
 		return algo
 	}
 	return ""
+}
+
+// checkMtreeSizeAgrees: for a payload file the size in the tar header, the
+// size in its .MTREE line and the amount added to the package size are one
+// value: in the function that writes payload members every MtreeEntry.Size is
+// one of the expressions stored as a header's Size (structural comparison).
+func checkMtreeSizeAgrees(c *Ctx, r *Report, pk *Packager) {
+	w := payloadWriter(c, pk)
+	if w == nil {
+		return
+	}
+	hdr := map[string]bool{}
+	var mt []*ssa.Store
+	forEachInstr(w, func(in ssa.Instruction) {
+		st, ok := in.(*ssa.Store)
+		if !ok {
+			return
+		}
+		fa, ok := st.Addr.(*ssa.FieldAddr)
+		if !ok || fieldName(fa.X.Type(), fa.Field) != "Size" {
+			return
+		}
+		switch {
+		case isNamed(derefType(fa.X.Type()), "archive/tar", "Header"):
+			hdr[valueExpr(c, st.Val, 0)] = true
+		case strings.HasSuffix(derefType(fa.X.Type()).String(), "MtreeEntry"):
+			mt = append(mt, st)
+		}
+	})
+	n := 0
+	for _, st := range mt {
+		if k, isK := st.Val.(*ssa.Const); isK && k.Value != nil && k.Int64() == 0 {
+			continue
+		}
+		n++
+		e := valueExpr(c, st.Val, 0)
+		r.Check(hdr[e], "F8-size", fmt.Sprintf("archlinux: mtree size#%d is the size written to the member's header", n), c.instrPos(st),
+			fmt.Sprintf("the .MTREE entry takes its size from %s, the tar headers of this function from {%s}: when the two can differ the line describes a member of another length", shorten(e, 80), shorten(joinSorted(hdr), 160)))
+	}
+	r.Floor("F8-size", n, 1)
 }
